@@ -4,6 +4,7 @@ import (
 	"fmt"
 	"go/constant"
 	"go/token"
+	"go/types"
 	"golang.org/x/tools/go/ssa"
 	"sort"
 	"strings"
@@ -138,6 +139,27 @@ func deepDefs(v ssa.Value, scope []*ssa.Function) []ssa.Value {
 				}
 			}
 			sites := callSitesOf(fn, scope)
+			if idx == 0 && len(sites) == 0 && fn.Signature.Recv() != nil {
+				// a method used as a method value (x.m): its receiver is what the bound-method wrapper was closed over
+				n := 0
+				for _, f := range scope {
+					ssau.Instrs(f, func(in ssa.Instruction) {
+						mc, ok := in.(*ssa.MakeClosure)
+						if !ok || len(mc.Bindings) != 1 {
+							return
+						}
+						w, isF := mc.Fn.(*ssa.Function)
+						if !isF || w.Synthetic == "" || w.Name() != fn.Name()+"$bound" || !types.Identical(mc.Bindings[0].Type(), x.Type()) {
+							return
+						}
+						n++
+						rec(mc.Bindings[0], depth+1)
+					})
+				}
+				if n > 0 {
+					return
+				}
+			}
 			if idx >= 0 && len(sites) > 0 && len(scope) > 0 && fn != scope[0] {
 				for _, s := range sites {
 					args := s.Common().Args
